@@ -15,4 +15,6 @@ HtmlOnly == {"html0"}
 \* ConcNeg_lazy_*: two goroutines whose FIRST js minification (direct or below html) coincides; ConcNeg_lazy_warm:
 \* one goroutine, two calls - results stay right (Deterministic holds), which is why a reference call made first hides it
 JsCold == {"js", "htmlC"}
+\* ConcNeg_pool_*: a call that fails after output, then (or beside) a well-formed one
+FailThenGood == {"jsonF", "htmlF", "css"}
 =============================================================================
